@@ -298,6 +298,7 @@ ADDED_B13 = {
     "C16": "Added after the thirteenth batch: C16.9 the mark / store protocol of the printing context is driven by validator classes only (parser keys are another namespace).",
 }
 ADDED_B13B = {
+    "C03": "C03.19 parseAfterValidation copies a declared property from wherever validate read it - no own-ness guard on declared keys, a loop over the declared keys next to the loop over the input's own keys (found and guards fix 12c2e38: inherited properties were accepted and dropped); C03.20 every computed-key write into a parse result knows the key is not __proto__ (found and guards fix ed9c558: own __proto__ keys of JSON.parse output were dropped / became the prototype). Both confirmed by executing the real runtime under node.",
     "C08": "C08.14 (= C13.12) the structural hashes of unions and intersections do not depend on the order - i.e. on the names - of their members (4 recorded findings, confirmed by executing the real runtime under node).",
     "C13": "C13.12 a digest specified to be independent of member order and of type names folds the members of a union / intersection commutatively or in a name-free canonical order (recorded findings: AnyOfRuntype / AllOfRuntype .hash and .hash256 write list order, and the compiler lists named members by name).",
     "C15": "C15.16 describe() never prints a mapped member `[K in ..]` inside braces that also hold declared properties (recorded finding: such text is not TypeScript and does not compile back).",
